@@ -122,7 +122,8 @@ func (core *JApiCore) processKeyword(lexeme scanner.Lexeme) *jerr.JApiError {
 
 	keyword := lexeme.Value().String()
 	coords := coordsFromLexeme(lexeme)
-	if !core.scannersStack.Empty() && keyword == directive.Jsight.String() {
+	// A banned JSIGHT directive gets the ban error (below), like any other banned directive.
+	if !core.scannersStack.Empty() && keyword == directive.Jsight.String() && !core.isBanned(directive.Jsight) {
 		return core.japiError(
 			fmt.Sprintf("%s %q", jerr.IncludeDirectiveErr, keyword),
 			coords.Begin())
